@@ -640,3 +640,11 @@ m('anydata-dtor-large-only', 'utilities/anydata.h', """		if(functions != nullptr
 		}""", """		if(functions != nullptr && isLargerData()) {
 			functions->free(buffer.data());
 		}""", 'C08,C17', 'fire', 'C08.O')
+# third audit round (single-exit style, withLock(mutex, closure), tag dispatch for enable_if pairs, out-of-line member definitions, loop rotation /
+# peeling, defaulted-parameter enable_if, metafunction rewrites, free-function helpers)
+_EQ3_PROPS = {'A1': 'C01,C02,C03,C10,C19', 'A2': 'C04,C03,C01,C12', 'A3': 'C05,C06,C07,C08,C09,C11,C13', 'A4': 'C05,C06,C07,C08,C09,C10,C11,C13',
+              'A5': 'C14,C03,C10,C12,C04,C02', 'A6': 'C14,C05,C06,C07,C08,C09,C11', 'A7': 'C15,C16,C09', 'A8': 'C17,C18,C08', 'A9': 'C12,C13,C08',
+              'A10': 'C02,C03,C12,C20,C04'}
+for _a, _p in _EQ3_PROPS.items():
+    for _e in ('e1', 'e2', 'e3', 'e4'):
+        M.append(dict(id='eqagent3-%s-%s' % (_a, _e), patch=_os.path.join(_P, 'eqagents3', '%s-%s.diff' % (_a, _e)), props=_p, expect='silent', rule=None))
